@@ -44,7 +44,7 @@ fn mk(id: &'static str, mode: Mode) -> PropDef {
             "states reached through a transition that violates any of C08/C09/C10 are not expanded further (each property reports only violations reached through clean paths)",
             "per-worker state counts are summed; a state reachable from two depth-1 states handled by different workers is counted twice",
         ],
-        budget_s: |t| t.pick(50, 1500),
+        budget_s: |t| t.pick(80, 1500),
         exhaustive: true,
         nshards: 16,
         post: |rep, _| {
@@ -135,14 +135,23 @@ pub fn initial_states_d(t: Tier, with_big: bool) -> Vec<(Init, usize)> {
     msgs.push(r(vec![], vec![name_rec(&a, T_NS, 7, &ba)], vec![a_rec(&ba, 1, [1, 1, 1, 1]), opt[2].clone(), aaaa_rec(&cba, 2, ip6)]));
     msgs.push(r(vec![], vec![], vec![opt[0].clone()]));
     msgs.push(r(vec![mx_rec(&ba, 9, 10, &cba)], vec![soa_rec(&a, 3, &ba, &cba)], vec![opt[1].clone()]));
+    let d2_from = msgs.len(); // the messages pushed from here up to d2_to are explored to depth 2 only
     // no authority, two additional records of which the second is compressed against the first
     msgs.push(r(vec![a_rec(&ba, 60, [1, 2, 3, 4])], vec![], vec![a_rec(&nm("x.y"), 1, [1, 1, 1, 1]), name_rec(&nm("z.x.y"), T_CNAME, 2, &nm("x.y"))]));
+    // the root as question name and as an owner (the shortest possible records)
+    {
+        let mut m = r(vec![a_rec(&vec![0u8], 60, [1, 2, 3, 4])], vec![name_rec(&vec![0u8], T_NS, 5, &a)], vec![opt[0].clone()]);
+        m.q[0].name = vec![0u8];
+        m.q[0].qtype = T_NS;
+        msgs.push(m);
+    }
     // a question of type OPT (41) next to a real OPT record
     {
         let mut m = r(vec![a_rec(&ba, 60, [1, 2, 3, 4])], vec![], vec![opt[1].clone()]);
         m.q[0].qtype = T_OPT;
         msgs.push(m);
     }
+    let d2_to = msgs.len();
     let mut q = base_msg(&ba, T_A, false);
     q.ar.push(opt[0].clone());
     msgs.push(q);
@@ -153,11 +162,13 @@ pub fn initial_states_d(t: Tier, with_big: bool) -> Vec<(Init, usize)> {
         msgs.push(r(vec![], vec![], vec![]));
     }
     let mut v: Vec<(Init, usize)> = vec![];
-    for m in &msgs {
-        for s in [Strategy::Max, Strategy::Plain, Strategy::Chain, Strategy::RdataOnly] {
-            let x = encode(m, s);
+    for (mi, m) in msgs.iter().enumerate() {
+        let d2 = mi >= d2_from && mi < d2_to;
+        let strategies: &[Strategy] = if d2 { &[Strategy::Max, Strategy::Plain] } else { &[Strategy::Max, Strategy::Plain, Strategy::Chain, Strategy::RdataOnly] };
+        for s in strategies {
+            let x = encode(m, *s);
             if !v.iter().any(|(i, _)| matches!(i, Init::Packet(p) if *p == x)) {
-                v.push((Init::Packet(x), full));
+                v.push((Init::Packet(x), if d2 { 2 } else { full }));
             }
         }
     }
@@ -195,6 +206,10 @@ pub fn initial_states_d(t: Tier, with_big: bool) -> Vec<(Init, usize)> {
     if t == Tier::Thorough {
         v.push((Init::Packet(al[12].clone()), 2)); // name at 512
     }
+    // question names written through the header bytes (header setters are then out of the alphabet)
+    for p in into_header_packets().into_iter().take(4) {
+        v.push((Init::Packet(p), 2));
+    }
     v.push((Init::Empty, full));
     v.push((Init::Query, full));
     if with_big {
@@ -210,7 +225,7 @@ pub fn initial_states_d(t: Tier, with_big: bool) -> Vec<(Init, usize)> {
         }
         v.push((Init::Packet(encode(&exp, Strategy::Max)), 1)); // ~1.3 KB on the wire, > 20 KB expanded
         // just below 65535 bytes: growing a name must fail with "too large"
-        let mut near = r(vec![], vec![], vec![]);
+        let mut near = r(vec![], vec![name_rec(&a, T_NS, 7, &ba)], vec![a_rec(&ba, 1, [1, 1, 1, 1]), opt[1].clone()]);
         near.an.push(a_rec(&a, 1, [1, 2, 3, 4]));
         let used = plain_len(&near);
         near.an.push(Rec { owner: a.clone(), rtype: 99, class: 1, ttl: 0, rdata: Rdata::Opaque(vec![0x42; 65535 - used - 13 - 20]) });
@@ -458,7 +473,10 @@ fn replay(case: &Value, mode: Mode) -> Result<String, String> {
     let init = init_from(&case["initial"]);
     let ops: Vec<Op> = case["ops"].as_array().map(|a| a.iter().map(op_from_json).collect()).unwrap_or_default();
     let mut s = init_snap(&init).ok_or("initial state cannot be built")?;
-    println!("initial: {}", init_json(&init));
+    {
+        let j = init_json(&init).to_string();
+        println!("initial: {}", if j.len() > 400 { format!("{}...({} chars)", &j[..400], j.len()) } else { j });
+    }
     if ops.is_empty() {
         return view_check(&s).map(|_| "initial view fine".into()).map_err(|(sig, w)| format!("[{}] {}", sig, w));
     }
